@@ -744,3 +744,457 @@ Proof.
   intro Ht. apply table_ok_split in Ht. destruct Ht as [_ Hu].
   intro s. apply decode_valid_iff. exact Hu.
 Qed.
+
+(* ========================================================================================== *)
+(* the other direction: whatever b58_dec accepts is the encoding of what it returns            *)
+
+Lemma chars_value_inv u : forall acc n, chars_value acc u = Some n ->
+  exists L, u = map char_of_digit (rev L) /\ digits_ok 58 L /\ length L = length u /\
+            n = (acc * 58 ^ N.of_nat (length L) + lsf_value 58 L)%N.
+Proof.
+  induction u as [|c u IH]; intros acc n H.
+  - simpl in H. injection H as <-. exists []. repeat split; try constructor.
+    cbn [length lsf_value]. change (N.of_nat 0) with 0%N. rewrite N.pow_0_r. lia.
+  - cbn [chars_value] in H. destruct (digit_of_char c) as [d|] eqn:Ed; [|discriminate].
+    destruct (IH _ _ H) as [L [Hu [Hok [Hlen Hn]]]].
+    apply char_digit_roundtrip in Ed. destruct Ed as [Hd Hc].
+    exists (L ++ [d]). repeat split.
+    + rewrite rev_app_distr. cbn [rev app map]. rewrite Hc, Hu. reflexivity.
+    + apply Forall_app. split; [exact Hok | constructor; [exact Hd | constructor]].
+    + rewrite app_length. cbn [length]. lia.
+    + rewrite Hn, (lsf_value_app 58), app_length by lia. cbn [length lsf_value].
+      replace (length L + 1)%nat with (S (length L)) by lia.
+      rewrite Nat2N.inj_succ, N.pow_succ_r'. lia.
+Qed.
+
+Lemma be_to_N_min_be f n : (n < 256 ^ N.of_nat f)%N -> be_to_N (min_be f n) = n.
+Proof.
+  intro Hf. unfold min_be. rewrite be_to_N_lsf, map_map.
+  assert (E : map (fun x => Byte.to_N (b8 x)) (rev (lsf_digits 256 f n)) = rev (lsf_digits 256 f n)).
+  { rewrite <- (map_id (rev (lsf_digits 256 f n))) at 2. apply map_ext_in.
+    intros d Hd. apply in_rev in Hd. rewrite to_N_b8.
+    pose proof (lsf_digits_ok 256 ltac:(lia) f n) as Hok. unfold digits_ok in Hok.
+    rewrite Forall_forall in Hok. apply N.mod_small, Hok, Hd. }
+  rewrite E, rev_involutive. apply lsf_value_digits; [lia | exact Hf].
+Qed.
+
+Lemma min_be_head f n : (n < 256 ^ N.of_nat f)%N ->
+  match min_be f n with x00 :: _ => False | _ => True end.
+Proof.
+  intro Hf. unfold min_be.
+  pose proof (lsf_digits_canon 256 ltac:(lia) f n Hf) as [Hok Hl].
+  remember (lsf_digits 256 f n) as l eqn:El. clear El.
+  induction l as [|d r _] using rev_ind; [exact I|].
+  rewrite rev_app_distr. cbn [rev app map]. rewrite last_last in Hl.
+  unfold digits_ok in Hok. apply Forall_app in Hok. destruct Hok as [_ Hd]. inversion Hd as [|? ? Hd' _]; subst.
+  destruct (b8 d) eqn:E; try exact I.
+  pose proof (to_N_b8 d) as Hb. rewrite E in Hb. rewrite N.mod_small in Hb by exact Hd'.
+  simpl in Hb. congruence.
+Qed.
+
+Lemma lstrip_not_head c s : (match s with x :: _ => x <> c | [] => True end) -> lstrip c s = s.
+Proof.
+  destruct s as [|x s]; [reflexivity|]. intro H. simpl.
+  destruct (byte_eqb x c) eqn:E; [apply byte_eqb_spec in E; contradiction | reflexivity].
+Qed.
+
+Lemma length_lstrip_le c v : (length (lstrip c v) <= length v)%nat.
+Proof. induction v as [|y v IHv]; simpl; [lia|]. destruct (byte_eqb y c); simpl; lia. Qed.
+
+Theorem b58_enc_dec s d : b58_dec s = Some d -> b58_enc d = rstrip_ws s.
+Proof.
+  unfold b58_dec. set (v := rstrip_ws s). set (u := lstrip one_char v).
+  destruct (chars_value 0 u) as [n|] eqn:En; [|discriminate]. intro H. injection H as <-.
+  destruct (chars_value_inv u 0 n En) as [L [Hu [Hok [Hlen Hn]]]].
+  rewrite N.mul_0_l, N.add_0_l in Hn.
+  assert (Hn58 : (n < 58 ^ N.of_nat (length u))%N).
+  { rewrite Hn, <- Hlen. apply lsf_value_lt; [lia | exact Hok]. }
+  assert (Hn256 : (n < 256 ^ N.of_nat (length u))%N).
+  { eapply N.lt_le_trans; [exact Hn58 | apply pow58_le_pow256]. }
+  set (z := (length v - length u)%nat).
+  unfold b58_enc.
+  assert (Hbody : lstrip x00 (repeat x00 z ++ min_be (length u) n) = min_be (length u) n).
+  { apply lstrip_repeat. pose proof (min_be_head (length u) n Hn256) as Hh.
+    destruct (min_be (length u) n) as [|x b]; [exact I|]. intro E. subst x. exact Hh. }
+  rewrite Hbody, app_length, repeat_length.
+  replace (z + length (min_be (length u) n) - length (min_be (length u) n))%nat with z by lia.
+  rewrite be_to_N_min_be by exact Hn256.
+  (* the digits of n are the characters of u *)
+  assert (Hcanon : canon 58 L).
+  { split; [exact Hok|].
+    destruct L as [|d0 L0] using rev_ind; [simpl; discriminate|]. clear IHL0.
+    rewrite last_last. intro Hz. subst d0.
+    rewrite rev_app_distr in Hu. cbn [rev app map] in Hu.
+    pose proof (lstrip_head one_char v) as Hh. fold u in Hh. rewrite Hu in Hh.
+    apply Hh. vm_compute. reflexivity. }
+  set (f := (2 * length (min_be (length u) n))%nat).
+  assert (Hf : (n < 58 ^ N.of_nat f)%N).
+  { unfold f. eapply N.lt_le_trans; [|apply pow256_le_pow58].
+    rewrite <- (be_to_N_min_be (length u) n Hn256) at 1. apply be_to_N_lt. }
+  assert (Hd : lsf_digits 58 f n = L).
+  { apply (canon_unique 58 ltac:(lia)).
+    - apply lsf_digits_canon; [lia | exact Hf].
+    - exact Hcanon.
+    - rewrite lsf_value_digits by (try lia; exact Hf). exact Hn. }
+  unfold b58_of_N. fold f. rewrite Hd, <- Hu.
+  unfold z, u. symmetry. apply lstrip_decompose.
+Qed.
+
+(* ========================================================================================== *)
+(* exactness: base58_decode accepts only the canonical encodings of right-length payloads      *)
+
+Lemma b58check_dec_inv sha256 s body :
+  b58check_dec sha256 s = Some body -> rstrip_ws s = b58check_enc sha256 body.
+Proof.
+  unfold b58check_dec. destruct (b58_dec s) as [d|] eqn:Ed; [|discriminate].
+  destruct (bytes_eqb (skipn (length d - 4) d) (checksum sha256 (firstn (length d - 4) d))) eqn:E; [|discriminate].
+  intro H. injection H as <-. apply bytes_eqb_spec in E.
+  unfold b58check_enc. rewrite <- E, firstn_skipn. symmetry. apply b58_enc_dec, Ed.
+Qed.
+
+Lemma length_b58_of_N_bounds f n : (n < 58 ^ N.of_nat f)%N -> (0 < n)%N ->
+  (58 ^ N.of_nat (length (b58_of_N f n) - 1) <= n < 58 ^ N.of_nat (length (b58_of_N f n)))%N.
+Proof.
+  intros Hf Hn. unfold b58_of_N. rewrite map_length, rev_length.
+  pose proof (lsf_digits_canon 58 ltac:(lia) f n Hf) as Hc.
+  pose proof (lsf_value_digits 58 ltac:(lia) f n Hf) as Hv.
+  split.
+  - rewrite <- Hv at 2. apply canon_lower; [lia | exact Hc |].
+    intro E. rewrite E in Hv. simpl in Hv. lia.
+  - rewrite <- Hv at 1. apply lsf_value_lt; [lia | apply Hc].
+Qed.
+
+(* the byte length of anything that encodes to [elen r] characters under [bpre r] is [plen r + 4] *)
+Lemma row_ok_length_inv r q :
+  row_ok r = true -> length (b58_enc (bpre r ++ q)) = elen r -> length q = (plen r + 4)%nat.
+Proof.
+  intros Hok HL. unfold row_ok in Hok.
+  destruct (tpre_value r) as [T|] eqn:ET; [|discriminate].
+  repeat (apply andb_true_iff in Hok; destruct Hok as [Hok ?]).
+  rename H into Hhi, H0 into Hlo, H1 into Hb0, H2 into Htp, H3 into HTk, H4 into HT0, Hok into Hk.
+  apply Nat.leb_le in Hk. apply N.ltb_lt in HT0, HTk. apply N.leb_le in Hlo, Hhi.
+  apply bytes_eqb_spec in Htp.
+  set (k := length (tpre r)) in *. set (j := (elen r - k)%nat) in *.
+  set (b := be_to_N (bpre r)) in *.
+  set (m0 := (plen r + 4)%nat) in *.
+  (* T has exactly k digits *)
+  assert (HTlow : (58 ^ N.of_nat (k - 1) <= T)%N).
+  { pose proof (length_b58_of_N_bounds k T HTk HT0) as [Hl _]. rewrite Htp in Hl. exact Hl. }
+  assert (Hk1 : (1 <= k)%nat).
+  { destruct (tpre r) eqn:E; [|simpl in k; subst k; simpl; lia].
+    unfold b58_of_N in Htp. simpl in k. subst k. simpl in HTk. lia. }
+  set (Lc := elen r) in *.
+  assert (HLkj : Lc = (k + j)%nat) by (unfold j; lia).
+  (* 58^(L-1) <= b 256^m0  and  (b+1) 256^m0 <= 58^L *)
+  assert (Hlow : (58 ^ N.of_nat (Lc - 1) <= b * 256 ^ N.of_nat m0)%N).
+  { eapply N.le_trans; [|exact Hlo].
+    replace (Lc - 1)%nat with ((k - 1) + j)%nat by lia.
+    rewrite Nat2N.inj_add, N.pow_add_r. apply N.mul_le_mono_r. exact HTlow. }
+  assert (Hhigh : ((b + 1) * 256 ^ N.of_nat m0 <= 58 ^ N.of_nat Lc)%N).
+  { eapply N.le_trans; [exact Hhi|].
+    rewrite HLkj, Nat2N.inj_add, N.pow_add_r. apply N.mul_le_mono_r. lia. }
+  (* the number that was encoded *)
+  set (v := bpre r ++ q) in *.
+  assert (Hstrip : lstrip x00 v = v).
+  { unfold v. destruct (bpre r) as [|b0 bs]; [discriminate|].
+    cbn [app lstrip]. destruct b0; try reflexivity. discriminate. }
+  unfold b58_enc in HL. rewrite Hstrip, Nat.sub_diag in HL. cbn [repeat app] in HL.
+  set (n := be_to_N v) in *.
+  assert (Hf : (n < 58 ^ N.of_nat (2 * length v))%N).
+  { unfold n. eapply N.lt_le_trans; [apply be_to_N_lt | apply pow256_le_pow58]. }
+  set (m := length q).
+  assert (En : n = (b * 256 ^ N.of_nat m + be_to_N q)%N) by (unfold n, v; apply be_to_N_app).
+  assert (Hq : (be_to_N q < 256 ^ N.of_nat m)%N) by apply be_to_N_lt.
+  assert (Hb1 : (1 <= b)%N).
+  { unfold b. destruct (bpre r) as [|b0 bs]; [discriminate|].
+    change (b0 :: bs) with ([b0] ++ bs). rewrite be_to_N_app.
+    assert (1 <= be_to_N [b0])%N.
+    { unfold be_to_N. cbn [be_to_N_acc]. destruct b0; try (simpl; lia); try discriminate. }
+    pose proof (pow_pos_B 256 ltac:(lia) (N.of_nat (length bs))). nia. }
+  assert (Hnpos : (0 < n)%N).
+  { rewrite En. pose proof (pow_pos_B 256 ltac:(lia) (N.of_nat m)). nia. }
+  pose proof (length_b58_of_N_bounds _ n Hf Hnpos) as [Hn1 Hn2]. rewrite HL in Hn1, Hn2.
+  destruct (Nat.lt_trichotomy m m0) as [Hlt | [Heq | Hgt]]; [|exact Heq|]; exfalso.
+  - (* too short: n < (b+1) 256^m <= (b+1) 256^(m0-1) < 58^(L-1) *)
+    assert (H1 : (256 ^ N.of_nat m * 256 <= 256 ^ N.of_nat m0)%N).
+    { rewrite N.mul_comm, <- N.pow_succ_r', <- Nat2N.inj_succ. apply N.pow_le_mono_r; lia. }
+    assert (HL1 : (1 <= Lc)%nat) by lia.
+    assert (H58 : (58 ^ N.of_nat Lc = 58 * 58 ^ N.of_nat (Lc - 1))%N).
+    { rewrite <- N.pow_succ_r', <- Nat2N.inj_succ. f_equal. lia. }
+    nia.
+  - (* too long: n >= b 256^m >= 256 b 256^m0 >= 256 58^(L-1) >= 58^L *)
+    assert (H1 : (256 ^ N.of_nat m0 * 256 <= 256 ^ N.of_nat m)%N).
+    { rewrite N.mul_comm, <- N.pow_succ_r', <- Nat2N.inj_succ. apply N.pow_le_mono_r; lia. }
+    assert (HL1 : (1 <= Lc)%nat) by lia.
+    assert (H58 : (58 ^ N.of_nat Lc = 58 * 58 ^ N.of_nat (Lc - 1))%N).
+    { rewrite <- N.pow_succ_r', <- Nat2N.inj_succ. f_equal. lia. }
+    nia.
+Qed.
+
+Section Exact.
+  Variable sha256 : bytes -> bytes.
+  Hypothesis sha256_len : forall x, length (sha256 x) = 32%nat.
+  Variable t : list row.
+  Hypothesis Hrows : forallb row_ok t = true.
+  Hypothesis Hunamb : table_unamb t = true.
+
+  Lemma decode_of_enc r p :
+    In r t -> length p = plen r -> base58_decode sha256 t (b58check_enc sha256 (bpre r ++ p)) = Ok p.
+  Proof.
+    intros Hin Hp.
+    assert (Hlp : length (b58check_enc sha256 (bpre r ++ p)) = elen r /\
+                  is_prefix (tpre r) (b58check_enc sha256 (bpre r ++ p)) = true).
+    { unfold b58check_enc. rewrite <- app_assoc.
+      apply row_ok_enc; [apply (row_ok_in t Hrows), Hin | exact Hp | apply checksum_length, sha256_len]. }
+    destruct Hlp as [Hl Hpre]. unfold base58_decode.
+    rewrite (find_dec_unique t Hunamb r _ Hin Hl Hpre).
+    rewrite (b58check_dec_enc sha256 sha256_len), is_prefix_app, skipn_app_exact. reflexivity.
+  Qed.
+
+  (* a string without trailing whitespace is accepted only if it is the encoding, under a row of
+     the table, of a payload of that row's length — and then that payload is returned *)
+  Lemma decode_exact s p :
+    rstrip_ws s = s -> base58_decode sha256 t s = Ok p ->
+    exists r, In r t /\ length p = plen r /\ s = b58check_enc sha256 (bpre r ++ p).
+  Proof.
+    intros Hws H. apply decode_ok_inv in H. destruct H as [r [Hin [Hl [Hpre Hd]]]].
+    apply b58check_dec_inv in Hd. rewrite Hws in Hd.
+    exists r. split; [exact Hin|]. split; [|exact Hd].
+    rewrite Hd in Hl. unfold b58check_enc in Hl. rewrite <- app_assoc in Hl.
+    apply row_ok_length_inv in Hl; [|apply (row_ok_in t Hrows), Hin].
+    rewrite app_length, (checksum_length sha256 sha256_len) in Hl. lia.
+  Qed.
+
+  Lemma decode_iff s p :
+    rstrip_ws s = s ->
+    (base58_decode sha256 t s = Ok p <->
+     exists r, In r t /\ length p = plen r /\ s = b58check_enc sha256 (bpre r ++ p)).
+  Proof.
+    intro Hws. split; [apply decode_exact, Hws|].
+    intros [r [Hin [Hp ->]]]. apply decode_of_enc; assumption.
+  Qed.
+
+  (* consequently: two different strings never decode to the same (row, payload), and a changed
+     string is either rejected or is itself the valid encoding of what it decodes to *)
+  Lemma encodings_have_no_ws r p : rstrip_ws (b58check_enc sha256 (bpre r ++ p)) = b58check_enc sha256 (bpre r ++ p).
+  Proof.
+    unfold b58check_enc. pose proof (b58_dec_enc ((bpre r ++ p) ++ checksum sha256 (bpre r ++ p))) as H.
+    apply b58_enc_dec in H. symmetry. exact H.
+  Qed.
+End Exact.
+
+Lemma any_decode_iff sha256 t : sha_ok sha256 -> table_ok t = true ->
+  forall s p, rstrip_ws s = s ->
+  (base58_decode sha256 t s = Ok p <->
+   exists r, In r t /\ length p = plen r /\ s = b58check_enc sha256 (bpre r ++ p)).
+Proof.
+  intros Hs Ht. apply table_ok_split in Ht. destruct Ht as [Hr Hu].
+  intros s p. apply decode_iff; assumption.
+Qed.
+
+(* ========================================================================================== *)
+(* trailing whitespace (stripped by the base58 package) never yields an accepted string        *)
+
+Lemma in_pows B n : forall acc i, (i < n)%nat -> In (acc * B ^ N.of_nat i)%N (pows B n acc).
+Proof.
+  induction n as [|n IH]; intros acc i Hi; [lia|].
+  cbn [pows]. destruct i as [|i].
+  - left. change (N.of_nat 0) with 0%N. rewrite N.pow_0_r. lia.
+  - right. specialize (IH (acc * B)%N i ltac:(lia)).
+    rewrite Nat2N.inj_succ, N.pow_succ_r'.
+    replace (acc * (B * B ^ N.of_nat i))%N with (acc * B * B ^ N.of_nat i)%N by lia. exact IH.
+Qed.
+
+Lemma rstrip_ws_decomp s : exists w, s = rstrip_ws s ++ w.
+Proof.
+  induction s as [|c s [w IH]].
+  - exists []. reflexivity.
+  - cbn [rstrip_ws]. destruct (rstrip_ws s) as [|x l] eqn:E.
+    + destruct (ws_byte c).
+      * exists (c :: s). reflexivity.
+      * exists s. reflexivity.
+    + exists w. rewrite IH at 1. reflexivity.
+Qed.
+
+Lemma rstrip_ws_app_nows a b :
+  Forall (fun c => ws_byte c = false) a -> rstrip_ws (a ++ b) = a ++ rstrip_ws b.
+Proof.
+  induction 1 as [|c a Hc Ha IH]; [reflexivity|].
+  cbn [app rstrip_ws]. rewrite IH.
+  destruct (a ++ rstrip_ws b) as [|x l] eqn:E; [|reflexivity].
+  rewrite Hc. reflexivity.
+Qed.
+
+Lemma row_ws_no_ws r s q :
+  row_ok r = true -> row_ws_ok r = true ->
+  length s = elen r -> is_prefix (tpre r) s = true ->
+  rstrip_ws s = b58_enc (bpre r ++ q) -> rstrip_ws s = s.
+Proof.
+  intros Hok Hws HL Hpre Hv.
+  destruct (rstrip_ws_decomp s) as [w Hs].
+  destruct w as [|w0 w]; [rewrite app_nil_r in Hs; symmetry; exact Hs|]. exfalso.
+  unfold row_ok in Hok. unfold row_ws_ok in Hws.
+  destruct (tpre_value r) as [T|] eqn:ET; [|discriminate].
+  repeat (apply andb_true_iff in Hok; destruct Hok as [Hok ?]).
+  rename H into Hhi, H0 into Hlo, H1 into Hb0, H2 into Htp, H3 into HTk, H4 into HT0, Hok into Hk.
+  apply Nat.leb_le in Hk. apply N.ltb_lt in HT0, HTk. apply N.leb_le in Hlo, Hhi.
+  apply bytes_eqb_spec in Htp.
+  set (k := length (tpre r)) in *. set (j := (elen r - k)%nat) in *.
+  set (b := be_to_N (bpre r)) in *. set (m0 := (plen r + 4)%nat) in *.
+  (* shape of the stripped string *)
+  apply is_prefix_spec in Hpre. destruct Hpre as [rest Hrest].
+  assert (Hnows : Forall (fun c => ws_byte c = false) (tpre r)) by (rewrite <- Htp; apply b58_of_N_chars).
+  assert (Ev : rstrip_ws s = tpre r ++ rstrip_ws rest) by (rewrite Hrest; apply rstrip_ws_app_nows, Hnows).
+  set (w' := rstrip_ws rest) in *.
+  assert (Hj' : (length w' < j)%nat).
+  { pose proof (f_equal (@length byte) Hs) as E1. rewrite app_length, Ev, app_length in E1.
+    cbn [length] in E1. fold k in E1. unfold j. lia. }
+  (* the number *)
+  set (v := bpre r ++ q) in *.
+  assert (Hstrip : lstrip x00 v = v).
+  { unfold v. destruct (bpre r) as [|b0 bs]; [discriminate|].
+    cbn [app lstrip]. destruct b0; try reflexivity. discriminate. }
+  unfold b58_enc in Hv. rewrite Hstrip, Nat.sub_diag in Hv. cbn [repeat app] in Hv.
+  set (n := be_to_N v) in *.
+  assert (Hf : (n < 58 ^ N.of_nat (2 * length v))%N).
+  { unfold n. eapply N.lt_le_trans; [apply be_to_N_lt | apply pow256_le_pow58]. }
+  assert (Hval : chars_value 0 (rstrip_ws s) = Some n).
+  { rewrite Hv. unfold b58_of_N. rewrite chars_value_digits by (apply lsf_digits_ok; lia).
+    rewrite lsf_value_digits by (try lia; exact Hf). f_equal; lia. }
+  rewrite Ev, chars_value_app in Hval. unfold tpre_value in ET. rewrite ET in Hval.
+  destruct (chars_value_inv w' T n Hval) as [L [_ [HLok [HLlen Hn]]]].
+  pose proof (lsf_value_lt 58 ltac:(lia) L HLok) as HLv.
+  rewrite HLlen in Hn, HLv.
+  set (j' := length w') in *.
+  set (m := length q).
+  assert (En : n = (b * 256 ^ N.of_nat m + be_to_N q)%N) by (unfold n, v; apply be_to_N_app).
+  assert (Hq : (be_to_N q < 256 ^ N.of_nat m)%N) by apply be_to_N_lt.
+  pose proof (pow_pos_B 58 ltac:(lia) (N.of_nat j')) as HP.
+  destruct (Nat.lt_ge_cases m m0) as [Hlt | Hge].
+  - (* shorter body: excluded by the computed disjointness *)
+    rewrite forallb_forall in Hws.
+    specialize (Hws ((b * (1 * 256 ^ N.of_nat m))%N, ((b + 1) * (1 * 256 ^ N.of_nat m))%N)).
+    assert (Hin1 : In ((b * (1 * 256 ^ N.of_nat m))%N, ((b + 1) * (1 * 256 ^ N.of_nat m))%N)
+                      (map (fun P => ((b * P)%N, ((b + 1) * P)%N)) (pows 256 m0 1))).
+    { apply in_map_iff. exists (1 * 256 ^ N.of_nat m)%N. split; [reflexivity | apply in_pows, Hlt]. }
+    specialize (Hws Hin1). rewrite forallb_forall in Hws.
+    specialize (Hws ((T * (1 * 58 ^ N.of_nat j'))%N, ((T + 1) * (1 * 58 ^ N.of_nat j'))%N)).
+    assert (Hin2 : In ((T * (1 * 58 ^ N.of_nat j'))%N, ((T + 1) * (1 * 58 ^ N.of_nat j'))%N)
+                      (map (fun P => ((T * P)%N, ((T + 1) * P)%N)) (pows 58 j 1))).
+    { apply in_map_iff. exists (1 * 58 ^ N.of_nat j')%N. split; [reflexivity | apply in_pows, Hj']. }
+    specialize (Hws Hin2). cbn [fst snd] in Hws. rewrite !N.mul_1_l in Hws.
+    apply negb_true_iff, andb_false_iff in Hws.
+    destruct Hws as [Hc | Hc]; apply N.ltb_ge in Hc; nia.
+  - (* body at least as long as the row's: the number is too big for fewer digits *)
+    assert (H1 : (256 ^ N.of_nat m0 <= 256 ^ N.of_nat m)%N) by (apply N.pow_le_mono_r; lia).
+    assert (H2 : (58 * 58 ^ N.of_nat j' <= 58 ^ N.of_nat j)%N).
+    { rewrite <- N.pow_succ_r', <- Nat2N.inj_succ. apply N.pow_le_mono_r; lia. }
+    nia.
+Qed.
+
+Section ExactAll.
+  Variable sha256 : bytes -> bytes.
+  Hypothesis sha256_len : forall x, length (sha256 x) = 32%nat.
+  Variable t : list row.
+  Hypothesis Hrows : forallb row_ok t = true.
+  Hypothesis Hunamb : table_unamb t = true.
+  Hypothesis Hws : table_ws_ok t = true.
+
+  (* "s is the encoding of payload p under row r of the table" *)
+  Definition encodes (r : row) (p s : bytes) : Prop :=
+    In r t /\ length p = plen r /\ s = b58check_enc sha256 (bpre r ++ p).
+
+  Lemma decode_exact_all s p :
+    base58_decode sha256 t s = Ok p -> exists r, encodes r p s.
+  Proof.
+    intro H. pose proof H as H0. apply decode_ok_inv in H0. destruct H0 as [r [Hin [Hl [Hpre Hd]]]].
+    apply b58check_dec_inv in Hd.
+    assert (Hnows : rstrip_ws s = s).
+    { unfold b58check_enc in Hd. rewrite <- app_assoc in Hd.
+      eapply row_ws_no_ws; [apply (row_ok_in t Hrows), Hin | | exact Hl | exact Hpre | exact Hd].
+      unfold table_ws_ok in Hws. rewrite forallb_forall in Hws. apply Hws, Hin. }
+    apply (decode_exact sha256 sha256_len t Hrows s p Hnows H).
+  Qed.
+
+  Lemma decode_iff_all s p : base58_decode sha256 t s = Ok p <-> exists r, encodes r p s.
+  Proof.
+    split; [apply decode_exact_all|].
+    intros [r [Hin [Hp ->]]]. apply decode_of_enc; assumption.
+  Qed.
+
+  Lemma encodes_shape r p s : encodes r p s -> length s = elen r /\ is_prefix (tpre r) s = true.
+  Proof.
+    intros [Hin [Hp ->]]. unfold b58check_enc. rewrite <- app_assoc.
+    apply row_ok_enc; [apply (row_ok_in t Hrows), Hin | exact Hp | apply checksum_length, sha256_len].
+  Qed.
+
+  (* one string, one kind, one payload *)
+  Lemma encodes_unique r1 p1 r2 p2 s : encodes r1 p1 s -> encodes r2 p2 s -> r1 = r2 /\ p1 = p2.
+  Proof.
+    intros H1 H2.
+    destruct (encodes_shape _ _ _ H1) as [Hl1 Hp1]. destruct (encodes_shape _ _ _ H2) as [Hl2 Hp2].
+    assert (Hr : r1 = r2).
+    { pose proof (find_dec_unique t Hunamb r1 s (proj1 H1) Hl1 Hp1) as E1.
+      pose proof (find_dec_unique t Hunamb r2 s (proj1 H2) Hl2 Hp2) as E2. congruence. }
+    split; [exact Hr|].
+    assert (D1 : base58_decode sha256 t s = Ok p1) by (apply decode_iff_all; exists r1; exact H1).
+    assert (D2 : base58_decode sha256 t s = Ok p2) by (apply decode_iff_all; exists r2; exact H2).
+    congruence.
+  Qed.
+
+  (* the validators: true exactly on the valid encodings of the listed kinds *)
+  Lemma validate_iff prefixes s :
+    validate sha256 t prefixes s = true <-> exists r p, encodes r p s /\ In (tpre r) prefixes.
+  Proof.
+    unfold validate. split.
+    - destruct (find_dec t s) as [r'|] eqn:Ef; [|discriminate].
+      destruct (existsb (bytes_eqb (tpre r')) prefixes) eqn:Ee; [|discriminate].
+      destruct (base58_decode sha256 t s) as [p|] eqn:Ed; [|discriminate]. intros _.
+      destruct (decode_exact_all s p Ed) as [r Hr].
+      destruct (encodes_shape _ _ _ Hr) as [Hl Hp].
+      pose proof (find_dec_unique t Hunamb r s (proj1 Hr) Hl Hp) as E. rewrite Ef in E. injection E as ->.
+      exists r, p. split; [exact Hr|].
+      apply existsb_exists in Ee. destruct Ee as [x [Hx Hxe]]. apply bytes_eqb_spec in Hxe. subst. exact Hx.
+    - intros [r [p [Hr Hin]]].
+      destruct (encodes_shape _ _ _ Hr) as [Hl Hp].
+      rewrite (find_dec_unique t Hunamb r s (proj1 Hr) Hl Hp).
+      assert (Ee : existsb (bytes_eqb (tpre r)) prefixes = true).
+      { apply existsb_exists. exists (tpre r). split; [exact Hin | apply bytes_eqb_spec; reflexivity]. }
+      rewrite Ee. assert (D : base58_decode sha256 t s = Ok p) by (apply decode_iff_all; exists r; exact Hr).
+      rewrite D. reflexivity.
+  Qed.
+End ExactAll.
+
+Definition table_full_ok (t : list row) : bool := table_ok t && table_ws_ok t.
+
+Lemma table43_full_ok : table_full_ok table43 = true.
+Proof. vm_compute. reflexivity. Qed.
+
+Lemma table_full_split t : table_full_ok t = true ->
+  forallb row_ok t = true /\ table_unamb t = true /\ table_ws_ok t = true.
+Proof.
+  unfold table_full_ok. intro H. apply andb_true_iff in H. destruct H as [H1 H2].
+  apply table_ok_split in H1. tauto.
+Qed.
+
+Lemma any_decode_iff_all sha256 t : sha_ok sha256 -> table_full_ok t = true ->
+  forall s p, base58_decode sha256 t s = Ok p <-> exists r, encodes sha256 t r p s.
+Proof.
+  intros Hs Ht. apply table_full_split in Ht. destruct Ht as [Hr [Hu Hw]].
+  intros s p. apply decode_iff_all; assumption.
+Qed.
+
+Lemma any_encodes_unique sha256 t : sha_ok sha256 -> table_full_ok t = true ->
+  forall r1 p1 r2 p2 s, encodes sha256 t r1 p1 s -> encodes sha256 t r2 p2 s -> r1 = r2 /\ p1 = p2.
+Proof.
+  intros Hs Ht. apply table_full_split in Ht. destruct Ht as [Hr [Hu Hw]].
+  intros r1 p1 r2 p2 s. apply encodes_unique; assumption.
+Qed.
+
+Lemma any_validate_iff sha256 t : sha_ok sha256 -> table_full_ok t = true ->
+  forall prefixes s,
+  validate sha256 t prefixes s = true <-> exists r p, encodes sha256 t r p s /\ In (tpre r) prefixes.
+Proof.
+  intros Hs Ht. apply table_full_split in Ht. destruct Ht as [Hr [Hu Hw]].
+  intros prefixes s. apply validate_iff; assumption.
+Qed.
